@@ -4,7 +4,7 @@
    [step] is the FIXED behaviour (fixes/C18-*.patch), [step_orig] the code as found.        *)
 From Coq Require Import List ZArith Bool.
 Import ListNotations.
-Require Import V.C18.Model V.C18.Proofs V.C18.Refine V.C18.Names.
+Require Import V.C18.Model V.C18.Proofs V.C18.Refine V.C18.Names V.C18.History.
 Open Scope Z_scope.
 
 (* An operation that is rejected (ValueError) leaves the store exactly as it was: same tree,
@@ -53,6 +53,43 @@ Theorem run_refines : forall ops,
   forall q, abs (run ops) q = a_run_from a_init ops q.
 Proof. exact run_refines_init. Qed.
 Print Assumptions run_refines.
+
+(* MOST RECENTLY PLACED, over the operation history.  [hist_from init ops] pairs every operation with
+   the answer the store gave; [last_placed ops p] scans it from the newest entry backwards for the last
+   placement at path p ([places]: an accepted add/change places its share there, an answered
+   create/addNode/createNode and the ancestors of an accepted add place something only where nothing
+   older did; rejected operations and lookups place nothing; the scan ends at the fresh store).
+   After ANY history the tree holds at every path exactly that object, or nothing ... *)
+Theorem holds_last_placed : forall ops p, abs (run ops) p = last_placed ops p.
+Proof. exact abs_is_last_placed. Qed.
+Print Assumptions holds_last_placed.
+
+(* ... and every lookup, by any dotted variant n of the path, returns exactly it *)
+Theorem lookup_returns_last_placed : forall ops n,
+  snd (step (run ops) (Fetch n)) = ares (last_placed ops (levels_of n)) /\
+  snd (step (run ops) (FetchShare n)) = (match last_placed ops (levels_of n) with Some (OShare j nm) => RShare j nm | _ => RNone end) /\
+  snd (step (run ops) (FetchNode n)) = (match last_placed ops (levels_of n) with Some (ONode nm) => RNode nm | _ => RNone end).
+Proof. exact fetch_is_last_placed. Qed.
+Print Assumptions lookup_returns_last_placed.
+
+(* every share found in the tree is a pre-seeded one or was handed in by an operation of the history
+   whose name splits into exactly that path *)
+Theorem share_origin : forall ops q j nm, abs (run ops) q = Some (OShare j nm) ->
+  abs init q = Some (OShare j nm) \/
+  exists o n, In o ops /\ op_id o = Some j /\ op_name o = Some n /\ levels_of n = q.
+Proof. exact share_origin_l. Qed.
+Print Assumptions share_origin.
+
+(* change replaces: when the operations carry pairwise distinct (non-negative) share identities, a change
+   over share j is accepted, puts the new share at the path, and j is then found at NO path at all *)
+Theorem replaced_share_unreachable : forall ops i n j nmj,
+  NoDup (ids ops ++ [i]) -> (forall x, In x (ids ops ++ [i]) -> 0 <= x) ->
+  abs (run ops) (levels_of n) = Some (OShare j nmj) ->
+  snd (step (run ops) (Change i n)) = RShare i n /\
+  abs (run (ops ++ [Change i n])) (levels_of n) = Some (OShare i n) /\
+  (0 <= j -> forall q nm', abs (run (ops ++ [Change i n])) q <> Some (OShare j nm')).
+Proof. exact replaced_share_unreachable_l. Qed.
+Print Assumptions replaced_share_unreachable.
 
 (* one step, from any well-formed store *)
 Theorem step_refines_spec : forall s o, wf_forest [] s ->
@@ -145,3 +182,9 @@ Example c18_nonvacuous :
                   Add 5 w_new_x; Add 6 w_dot])
   = [RShare 1 n_ab; RErr; RErr; RShare 3 n_dab; RShare 3 n_dab; RNode n_a; RErr; RErr; RErr].
 Proof. vm_compute. reflexivity. Qed.
+
+Example c18_scan_nonvacuous :
+  last_placed [Add 1 n_ab; Add 2 n_dab; Change 3 n_dab; AddNode n_abc; Fetch n_a] [[97]; [98]] = Some (OShare 3 n_dab) /\
+  last_placed [Add 1 n_ab; Change 3 n_dab] [[97]] = Some (ONode n_a) /\
+  last_placed [Add 5 w_new_x] [[110; 101; 119]] = None.
+Proof. vm_compute. repeat split; reflexivity. Qed.
